@@ -40,7 +40,8 @@ CONSTANTS Keys, MaxTxn, MemThreshold, QueueLen, L0Target, MaxCrashes, MaxCloses,
           BugPerEntryWal,         \* D9: one wal append + fsync per entry of a transaction
           BugAckBeforeSync,       \* Commit returns before the wal is synced
           BugDelWalFirst,         \* the wal of a memtable is deleted before its table is complete
-          BugCloseFlushesFirst    \* Close flushes the active memtable itself, ahead of the queued (older) ones
+          BugCloseFlushesFirst,   \* Close flushes the active memtable itself, ahead of the queued (older) ones
+          BugExitWithQueue        \* Close returns (the flusher exits) although memtables are still queued
 
 VARIABLES
     wals,      \* wal id -> [recs: Seq(rec), synced: Nat]           (the directory's *.log files)
@@ -307,11 +308,11 @@ ClSteps ==
     /\ UNCHANGED <<nextWal, mem, imm, q, cm, fl, rc, phase, nextTs, txw, acked, crashes, panic, memrecs, cpbuf>>
 
 ClDone ==
-    /\ phase = "closing" /\ cl.pc = "wait" /\ fl.pc = "wait" /\ q = <<>>
-    /\ phase' = "down"
+    /\ phase = "closing" /\ cl.pc = "wait" /\ fl.pc = "wait" /\ (q = <<>> \/ BugExitWithQueue)
+    /\ phase' = "down" /\ q' = <<>>
     /\ cl' = Idle
     /\ mem' = [wal |-> 0, txs |-> {}] /\ memrecs' = {} /\ imm' = <<>> /\ handles' = {}
-    /\ UNCHANGED <<wals, tabs, nextWal, nextTab, q, cm, fl, rc, nextTs, txw, acked, crashes, panic, cpbuf, cltab>>
+    /\ UNCHANGED <<wals, tabs, nextWal, nextTab, cm, fl, rc, nextTs, txw, acked, crashes, panic, cpbuf, cltab>>
 
 \* ------------------------------------------------------------------ crash
 CutOptions(w) == IF TornTails THEN wals[w].synced..Len(wals[w].recs) ELSE {Len(wals[w].recs)}
@@ -409,6 +410,10 @@ OpenOk == panic = ""
 Durable == (phase = "run" /\ fl.pc \notin CpPcs) =>
               /\ \A r \in AckedRecs : Search(r.k).ts >= r.ts
               /\ \A v \in VisibleRecs : v.t \in DOMAIN txw /\ v.k \in txw[v.t].ks
+\* C02: a clean Close leaves everything in tables: no wal file survives it, and after the reopen exactly
+\* the acknowledged transactions are visible
+ReopenExact == /\ phase = "down" => DOMAIN wals = {}
+               /\ (phase = "run" /\ crashes = 0 /\ cm.pc = "idle") => \A v \in VisibleRecs : v.t \in acked
 \* C04: every transaction is visible completely or not at all
 Atomic == Recovered => \A t \in DOMAIN txw : (TxRecs(t) \cap VisibleRecs) \in {{}, TxRecs(t)}
 \* C02/C03: commit timestamps continue above every stored version
